@@ -25,6 +25,9 @@ pub struct Walker {
     /// bytes of input that could have encoded the value (payload bytes available)
     pub avail: u128,
     pub min_bytes: u128,
+    /// sum over all collections of (elements x minimal encoded size of one element, not counting what nested
+    /// collections account for themselves)
+    pub payload: u128,
     pub problems: Vec<String>,
     pub elements_touched: u64,
 }
@@ -33,6 +36,7 @@ impl Walker {
         Walker {
             avail: avail as u128,
             min_bytes: 0,
+            payload: 0,
             problems: Vec::new(),
             elements_touched: 0,
         }
@@ -52,7 +56,14 @@ impl Walker {
             ));
             return false;
         }
+        self.payload += need;
         true
+    }
+    /// after the walk: everything the value holds, taken together, must have fitted into the input
+    pub fn check_total(&mut self) {
+        if self.problems.is_empty() && self.payload > self.avail {
+            self.problems.push(format!("oversized-total:the collections of the value hold at least {} encoded bytes between them but only {} input bytes exist", self.payload, self.avail));
+        }
     }
     pub fn problem(&mut self, p: String) {
         if self.problems.len() < 8 {
@@ -67,6 +78,8 @@ pub trait ZooVal: Sized + 'static {
     /// whether two equal values must also re-serialize to identical bytes (false for containers whose iteration
     /// order is not part of their value: hash sets, binary heaps)
     const BYTES_ARE_CANONICAL: bool = true;
+    /// data version the value is saved AND loaded with (version 0 unless the type carries version attributes)
+    const VERSION: u32 = 0;
 }
 
 /// collection length for a size class
@@ -970,11 +983,56 @@ pub trait Subject: Sync {
     fn walk(&self, v: &Val, w: &mut Walker);
     fn save_encrypted_file(&self, v: &Val, path: &std::path::Path, compressed_hint: bool, password: &str) -> Result<(), SavefileError>;
     fn load_encrypted_file(&self, path: &std::path::Path, password: &str) -> Result<Val, SavefileError>;
+    /// the `*_file` convenience wrappers of the library, on a real file
+    fn save_real(&self, v: &Val, path: &std::path::Path, kind: RealKind, password: &str) -> Result<(), SavefileError>;
+    fn load_real(&self, path: &std::path::Path, kind: RealKind, password: &str) -> Result<Val, SavefileError>;
     fn debug(&self, v: &Val) -> String;
     /// true for byte pipes without length framing, where a stream cut at a chunk boundary legitimately reads as a
     /// shorter stream: `loaded` is then only required to be a prefix of `original`
     fn prefix_is_legitimate(&self, _loaded: &Val, _original: &Val) -> bool {
         false
+    }
+}
+/// which pair of `*_file` wrappers a real-file case goes through
+#[derive(Clone, Copy, Debug, PartialEq)]
+pub enum RealKind {
+    /// save_encrypted_file / load_encrypted_file
+    Encrypted,
+    /// save_file / load_file
+    Plain,
+    /// save_file_noschema / load_file_noschema
+    NoSchema,
+    /// save_file_compressed / load_file
+    Compressed,
+}
+impl RealKind {
+    pub fn name(self) -> &'static str {
+        match self {
+            RealKind::Encrypted => "encrypted",
+            RealKind::Plain => "plain",
+            RealKind::NoSchema => "noschema",
+            RealKind::Compressed => "compressed",
+        }
+    }
+    pub fn from_config(cfg: &str) -> RealKind {
+        if cfg.ends_with("-plain") {
+            RealKind::Plain
+        } else if cfg.ends_with("-noschema") {
+            RealKind::NoSchema
+        } else if cfg.ends_with("-compressed") {
+            RealKind::Compressed
+        } else {
+            RealKind::Encrypted
+        }
+    }
+    pub fn of_container(c: Container) -> Option<RealKind> {
+        match c {
+            Container::Plain => Some(RealKind::Plain),
+            Container::NoSchema => Some(RealKind::NoSchema),
+            Container::Compressed => Some(RealKind::Compressed),
+            Container::EncCompressed => Some(RealKind::Encrypted),
+            Container::EncPlain => None,
+        }
     }
 }
 /// `Write`/`Read` as trait objects that are also `Sized` wrappers can borrow
@@ -1015,13 +1073,13 @@ where
         let v: &T = v.downcast_ref::<T>().expect("type");
         let mut w = W(w);
         match c {
-            Container::Plain => savefile::save(&mut w, 0, v),
-            Container::NoSchema => savefile::save_noschema(&mut w, 0, v),
-            Container::Compressed => savefile::save_compressed(&mut w, 0, v),
+            Container::Plain => savefile::save(&mut w, T::VERSION, v),
+            Container::NoSchema => savefile::save_noschema(&mut w, T::VERSION, v),
+            Container::Compressed => savefile::save_compressed(&mut w, T::VERSION, v),
             Container::EncPlain | Container::EncCompressed => {
                 // the body of save_encrypted_file, over our device instead of a File
                 let mut writer = CryptoWriter::new(&mut w, key)?;
-                Serializer::<CryptoWriter>::save::<T>(&mut writer, 0, v, c == Container::EncCompressed)?;
+                Serializer::<CryptoWriter>::save::<T>(&mut writer, T::VERSION, v, c == Container::EncCompressed)?;
                 writer.flush()?;
                 Ok(())
             }
@@ -1030,13 +1088,13 @@ where
     fn load(&self, r: &mut dyn DynRead, c: Container, key: [u8; 32]) -> Result<Val, SavefileError> {
         let mut r = R(r);
         let v: T = match c {
-            Container::Plain | Container::Compressed => savefile::load::<T>(&mut r, 0)?,
-            Container::NoSchema => savefile::load_noschema::<T>(&mut r, 0)?,
+            Container::Plain | Container::Compressed => savefile::load::<T>(&mut r, T::VERSION)?,
+            Container::NoSchema => savefile::load_noschema::<T>(&mut r, T::VERSION)?,
             Container::EncPlain | Container::EncCompressed => {
                 // the body of load_encrypted_file (with `?` where it has unwrap: the unwrap is
                 // exercised separately through the real function on a real file)
                 let mut reader = CryptoReader::new(&mut r, key)?;
-                Deserializer::<CryptoReader>::load::<T>(&mut reader, 0)?
+                Deserializer::<CryptoReader>::load::<T>(&mut reader, T::VERSION)?
             }
         };
         Ok(Box::new(v))
@@ -1053,10 +1111,26 @@ where
         v.downcast_ref::<T>().expect("type").walk(w)
     }
     fn save_encrypted_file(&self, v: &Val, path: &std::path::Path, _c: bool, password: &str) -> Result<(), SavefileError> {
-        savefile::save_encrypted_file(path, 0, v.downcast_ref::<T>().expect("type"), password)
+        savefile::save_encrypted_file(path, T::VERSION, v.downcast_ref::<T>().expect("type"), password)
     }
     fn load_encrypted_file(&self, path: &std::path::Path, password: &str) -> Result<Val, SavefileError> {
-        Ok(Box::new(savefile::load_encrypted_file::<T, _>(path, 0, password)?))
+        Ok(Box::new(savefile::load_encrypted_file::<T, _>(path, T::VERSION, password)?))
+    }
+    fn save_real(&self, v: &Val, path: &std::path::Path, kind: RealKind, password: &str) -> Result<(), SavefileError> {
+        let v: &T = v.downcast_ref::<T>().expect("type");
+        match kind {
+            RealKind::Encrypted => savefile::save_encrypted_file(path, T::VERSION, v, password),
+            RealKind::Plain => savefile::save_file(path, T::VERSION, v),
+            RealKind::NoSchema => savefile::save_file_noschema(path, T::VERSION, v),
+            RealKind::Compressed => savefile::save_file_compressed(path, T::VERSION, v),
+        }
+    }
+    fn load_real(&self, path: &std::path::Path, kind: RealKind, password: &str) -> Result<Val, SavefileError> {
+        Ok(Box::new(match kind {
+            RealKind::Encrypted => savefile::load_encrypted_file::<T, _>(path, T::VERSION, password)?,
+            RealKind::Plain | RealKind::Compressed => savefile::load_file::<T, _>(path, T::VERSION)?,
+            RealKind::NoSchema => savefile::load_file_noschema::<T, _>(path, T::VERSION)?,
+        }))
     }
     fn debug(&self, v: &Val) -> String {
         let s = format!("{:?}", v.downcast_ref::<T>().expect("type"));
@@ -1071,10 +1145,10 @@ where
         }
     }
 }
-impl<T: Serialize> Subj<T> {
+impl<T: Serialize + ZooVal> Subj<T> {
     fn bare_t(&self, v: &T) -> Vec<u8> {
         let mut out = Vec::new();
-        let _ = Serializer::bare_serialize(&mut out, 0, v);
+        let _ = Serializer::bare_serialize(&mut out, T::VERSION, v);
         out
     }
 }
@@ -1175,6 +1249,12 @@ impl Subject for PipeSubj {
         Err(SavefileError::GeneralError { msg: "CryptoPipe has no file form".into() })
     }
     fn load_encrypted_file(&self, _path: &std::path::Path, _password: &str) -> Result<Val, SavefileError> {
+        Err(SavefileError::GeneralError { msg: "CryptoPipe has no file form".into() })
+    }
+    fn save_real(&self, _v: &Val, _path: &std::path::Path, _kind: RealKind, _password: &str) -> Result<(), SavefileError> {
+        Err(SavefileError::GeneralError { msg: "CryptoPipe has no file form".into() })
+    }
+    fn load_real(&self, _path: &std::path::Path, _kind: RealKind, _password: &str) -> Result<Val, SavefileError> {
         Err(SavefileError::GeneralError { msg: "CryptoPipe has no file form".into() })
     }
     fn debug(&self, v: &Val) -> String {
@@ -1372,9 +1452,124 @@ impl Subject for UpSubj {
     fn load_encrypted_file(&self, path: &std::path::Path, password: &str) -> Result<Val, SavefileError> {
         Ok(Box::new(UpVal { old: None, new: savefile::load_encrypted_file::<UpNew, _>(path, 1, password)? }))
     }
+    fn save_real(&self, v: &Val, path: &std::path::Path, kind: RealKind, password: &str) -> Result<(), SavefileError> {
+        let old = v.downcast_ref::<UpVal>().expect("type").old.as_ref().expect("generated");
+        match kind {
+            RealKind::Encrypted => savefile::save_encrypted_file(path, 0, old, password),
+            RealKind::Plain => savefile::save_file(path, 0, old),
+            RealKind::NoSchema => savefile::save_file_noschema(path, 0, old),
+            RealKind::Compressed => savefile::save_file_compressed(path, 0, old),
+        }
+    }
+    fn load_real(&self, path: &std::path::Path, kind: RealKind, password: &str) -> Result<Val, SavefileError> {
+        let new = match kind {
+            RealKind::Encrypted => savefile::load_encrypted_file::<UpNew, _>(path, 1, password)?,
+            RealKind::Plain | RealKind::Compressed => savefile::load_file::<UpNew, _>(path, 1)?,
+            RealKind::NoSchema => savefile::load_file_noschema::<UpNew, _>(path, 1)?,
+        };
+        Ok(Box::new(UpVal { old: None, new }))
+    }
     fn debug(&self, v: &Val) -> String {
         let s = format!("{:?}", v.downcast_ref::<UpVal>().expect("type").new);
         s.chars().take(300).collect()
+    }
+}
+
+// ---------------------------------------------------------------------------------------------
+// "VerRec": a CURRENT-version file (version 1 written, version 1 read) of a struct that carries version
+// attributes; it ENDS in a field that was added in version 1 and has an explicit default (a truncated file must
+// not be "repaired" with the default), preceded by a removed field (absent from version-1 files).
+// ---------------------------------------------------------------------------------------------
+fn verrec_level_default() -> u16 {
+    9
+}
+#[derive(Savefile, Debug, PartialEq, Clone)]
+pub struct VerRec {
+    pub name: String,
+    pub points: Vec<u32>,
+    #[savefile_versions = "0..0"]
+    pub legacy: Removed<u64>,
+    #[savefile_versions = "1.."]
+    #[savefile_default_fn = "verrec_level_default"]
+    pub level: u16,
+    pub flag: bool,
+    #[savefile_versions = "1.."]
+    #[savefile_default_val = "7"]
+    pub retries: u32,
+}
+impl ZooVal for VerRec {
+    const VERSION: u32 = 1;
+    fn gen(rng: &mut Rng, sc: u8, hint: usize) -> Self {
+        VerRec {
+            name: gen_string(rng, sc, hint),
+            points: (0..len_for(rng, sc, hint / 4)).map(|_| rng.next_u64() as u32).collect(),
+            legacy: Removed::new(),
+            level: rng.next_u64() as u16,
+            flag: rng.chance(1, 2),
+            // never the default itself: a default slipped in for a missing field must differ from the original
+            retries: 8 + (rng.next_u64() as u32 >> 1),
+        }
+    }
+    fn walk(&self, w: &mut Walker) {
+        if w.collection("String", self.name.len(), 1) {
+            w.elements_touched += self.name.chars().count() as u64;
+        }
+        if w.collection("Vec<u32>", self.points.len(), 4) {
+            let mut acc = 0u64;
+            for x in &self.points {
+                acc = acc.wrapping_add(*x as u64);
+            }
+            std::hint::black_box(acc);
+        }
+        w.prim(2 + 1 + 4);
+        let b = unsafe { *(&self.flag as *const bool as *const u8) };
+        if b > 1 {
+            w.problem(format!("invalid-bool:{}", b));
+        }
+    }
+}
+// ---------------------------------------------------------------------------------------------
+// "Names": identifiers that are long and not ASCII. The schema section stores every struct, field and variant
+// name; code that abbreviates, compares or formats them must cope with multi-byte characters at every byte
+// offset (the two field names below have their character boundaries at odd resp. even offsets only).
+// ---------------------------------------------------------------------------------------------
+#[allow(non_snake_case, non_camel_case_types)]
+#[derive(Savefile, Debug, PartialEq, Clone)]
+pub enum Färg_åäöåäöåäöåäöåäöåäöåäöåäöåäöåäöåäöåäöåäöåäöåäöåäöåäöåäöåäöåäöåäö {
+    Röd_ÅÅÅÅÅÅÅÅÅÅÅÅÅÅÅÅÅÅÅÅÅÅÅÅÅÅÅÅÅÅÅÅÅÅÅÅÅÅÅÅÅÅÅÅÅÅÅÅÅÅÅÅÅÅÅÅÅÅÅÅÅÅÅÅÅÅÅÅÅÅÅÅÅÅ,
+    xGrön_ああああああああああああああああああああああああああああああああああああああああああああああああああああ(u16),
+}
+#[allow(non_snake_case)]
+#[derive(Savefile, Debug, PartialEq, Clone)]
+pub struct Names {
+    pub ååååååååååååååååååååååååååååååååååååååååååååååååååååååååååååååååååååååååååå: u32,
+    pub xååååååååååååååååååååååååååååååååååååååååååååååååååååååååååååååååååååååååååå: Vec<u16>,
+    pub färg: Färg_åäöåäöåäöåäöåäöåäöåäöåäöåäöåäöåäöåäöåäöåäöåäöåäöåäöåäöåäöåäöåäö,
+    pub plain: u8,
+}
+impl ZooVal for Names {
+    fn gen(rng: &mut Rng, sc: u8, hint: usize) -> Self {
+        Names {
+            ååååååååååååååååååååååååååååååååååååååååååååååååååååååååååååååååååååååååååå: rng.next_u64() as u32,
+            xååååååååååååååååååååååååååååååååååååååååååååååååååååååååååååååååååååååååååå: (0..len_for(rng, sc, hint / 2)).map(|_| rng.next_u64() as u16).collect(),
+            färg: if rng.chance(1, 2) {
+                Färg_åäöåäöåäöåäöåäöåäöåäöåäöåäöåäöåäöåäöåäöåäöåäöåäöåäöåäöåäöåäöåäö::Röd_ÅÅÅÅÅÅÅÅÅÅÅÅÅÅÅÅÅÅÅÅÅÅÅÅÅÅÅÅÅÅÅÅÅÅÅÅÅÅÅÅÅÅÅÅÅÅÅÅÅÅÅÅÅÅÅÅÅÅÅÅÅÅÅÅÅÅÅÅÅÅÅÅÅÅ
+            } else {
+                Färg_åäöåäöåäöåäöåäöåäöåäöåäöåäöåäöåäöåäöåäöåäöåäöåäöåäöåäöåäöåäöåäö::xGrön_ああああああああああああああああああああああああああああああああああああああああああああああああああああ(rng.next_u64() as u16)
+            },
+            plain: rng.next_u64() as u8,
+        }
+    }
+    fn walk(&self, w: &mut Walker) {
+        w.prim(4);
+        if w.collection("Vec<u16>", self.xååååååååååååååååååååååååååååååååååååååååååååååååååååååååååååååååååååååååååå.len(), 2) {
+            let mut acc = 0u64;
+            for x in &self.xååååååååååååååååååååååååååååååååååååååååååååååååååååååååååååååååååååååååååå {
+                acc = acc.wrapping_add(*x as u64);
+            }
+            std::hint::black_box(acc);
+        }
+        w.prim(2);
     }
 }
 
@@ -1405,6 +1600,8 @@ pub fn subjects() -> Vec<&'static dyn Subject> {
         subj!(Misc2, "Misc2"),
         &PipeSubj as &dyn Subject,
         &UpSubj as &dyn Subject,
+        subj!(VerRec, "VerRec"),
+        subj!(Names, "Names"),
     ]
 }
 pub fn subject(name: &str) -> &'static dyn Subject {
